@@ -35,8 +35,14 @@
 (*                                                                          *)
 (* Deliberate deviations / bounds (all named):                              *)
 (*  - URLs and refs contain no ','  (the protocol joins with ',').          *)
-(*  - layer descriptors carry no annotations of their own before the        *)
-(*    handler runs (AppendExtraLabelsHandler keeps pre-set keys).           *)
+(*  - layer descriptors that already carry containerd.io/snapshot/remote/*  *)
+(*    annotations in the manifest are modelled (family "edge", field pre):  *)
+(*    the default handler OVERWRITES every key it writes; the extra handler *)
+(*    KEEPS a pre-set urls / urls.<j> / prefetch key ("nop if this key is   *)
+(*    already set" in the code) - so for the extra flavour the URL and      *)
+(*    prefetch clauses are claimed only for keys that were not pre-set, and *)
+(*    the keeping itself is pinned by ExtraKeepsPreset (candidate finding,  *)
+(*    see the builder report).                                              *)
 (*  - entries with equal digests have the same media-type class             *)
 (*    (TypeByDigest), the config digest differs from every layer digest.    *)
 (*  - tampering never turns a value into a DIFFERENT well-formed value      *)
@@ -59,6 +65,10 @@ CONSTANTS
     \* ---- the code's property-bearing guards; each can be switched off as a negative control
     ValidateLayers,     \* labels.Validate in the layers loop (default handler) / getLayers (containerd)
     ValidateUrls,       \* labels.Validate in appendWithValidation
+    CountSeparator,     \* appendWithValidation validates the value INCLUDING the ',' it is about to append
+                        \* (FALSE: validates v+u, then appends ","+u - a label of MaxSize+1 bytes can result)
+    WriteEmptyUrlLabels,\* the default handler writes urls / urls.<i> even for an empty URL list, which is what
+                        \* overwrites same-named annotations already present on the manifest's descriptor
     WholeDigests,       \* the layers list stops BEFORE a digest that does not fit (never cut inside one)
     UrlIdx,             \* "layer": the default handler keys urls.<i> by position in the layers label (what the
                         \*          reader uses) - the code after the commit "fix: index neighbour URL labels by
@@ -75,7 +85,9 @@ ULenTab == <<1, 1500, 3000, 4100>>          \* url ids 1..4; 0 is the empty stri
 ULenMid == 30                               \* url ids 10..999
 ULenBig == 120                              \* url ids >= BigFrom
 BigFrom == 1000
-ULen(u) == IF u = 0 THEN 0 ELSE IF u <= Len(ULenTab) THEN ULenTab[u] ELSE IF u < BigFrom THEN ULenMid ELSE ULenBig
+ExactFrom == 100000                         \* url id ExactFrom + n is a URL of exactly n bytes (boundary family)
+ULen(u) == IF u = 0 THEN 0 ELSE IF u >= ExactFrom THEN u - ExactFrom
+           ELSE IF u <= Len(ULenTab) THEN ULenTab[u] ELSE IF u < BigFrom THEN ULenMid ELSE ULenBig
 RefLenTab == <<25, 300>>
 PfTab == <<[v |-> "0", len |-> 1], [v |-> "10485760", len |-> 8], [v |-> "9223372036854775807", len |-> 19]>>
 ManifestDigest == 900                       \* digest id of the manifest itself (cri.manifest-digest)
@@ -99,7 +111,10 @@ Val(items, len) == [len |-> len, items |-> items]
 EmptyVal == Val(<<>>, 0)
 
 \* ---------------------------------------------------------------- manifests
-Entry(d, urls, isL) == [d |-> d, urls |-> urls, isLayer |-> isL]
+\* pre: annotations the descriptor already carries in the manifest, a sequence of [k |-> key, u |-> url id]
+\* (the pre-set value is always the single foreign URL u, whatever the key)
+EntryP(d, urls, isL, pre) == [d |-> d, urls |-> urls, isLayer |-> isL, pre |-> pre]
+Entry(d, urls, isL) == EntryP(d, urls, isL, <<>>)
 ConfigEntry == Entry(ConfigDigest, <<>>, FALSE)
 \* images.Children: config first, then manifest.Layers
 Children(man) == <<ConfigEntry>> \o man
@@ -111,7 +126,7 @@ TypeByDigest(m) == \A a, b \in 1..Len(m) : m[a].d = m[b].d => m[a].isLayer = m[b
 UrlLists == {<<>>, <<1>>, <<2, 3>>}
 \* (operators with an argument so that TLC does not evaluate the families a config does not use)
 FullManifests(ml) ==
-    UNION {{m \in [1..n -> [d : 1..MaxD, urls : UrlLists, isLayer : BOOLEAN]] : Canonical(m) /\ TypeByDigest(m)}
+    UNION {{m \in [1..n -> [d : 1..MaxD, urls : UrlLists, isLayer : BOOLEAN, pre : {<<>>}]] : Canonical(m) /\ TypeByDigest(m)}
            : n \in 0..ml}
 
 Patterns == {"own", "none", "alt", "big1", "huge2"}
@@ -139,11 +154,37 @@ TamperManifests ==
     { <<Entry(1, <<11>>, TRUE), Entry(2, <<12>>, TRUE)>>,
       <<Entry(1, <<>>, TRUE), Entry(2, <<12>>, TRUE), Entry(1, <<11>>, TRUE)>> }
 
+\* ---- family "edge", part 1: URL lists that land exactly on / next to the label size limit.
+\* For a URL-carrying key of klen bytes the list is chosen so that key + joined value would be T bytes,
+\* T in MaxSize-2 .. MaxSize+1 (the code's own check counts one trailing ',', so it accepts T <= MaxSize-1).
+Filler(n) == ExactFrom + n
+BList(klen, shape, T) ==
+    CASE shape = "one"   -> <<Filler(T - klen)>>
+      [] shape = "two"   -> <<21, Filler(T - klen - ULenMid - 1)>>
+      [] shape = "three" -> <<21, Filler(T - klen - ULenMid - 1), 22>>       \* 22 follows a (possible) cut
+BoundaryManifests ==
+    UNION {{ <<Entry(1, BList(kl, sh, T), TRUE), Entry(2, <<12>>, TRUE)>>,
+             <<Entry(1, <<11>>, TRUE), Entry(2, BList(kl, sh, T), TRUE)>> }
+           : kl \in {Len(UrlsKey), Len(UrlsIdxKey(1))}, sh \in {"one", "two", "three"},
+             T \in (MaxSize - 2)..(MaxSize + 1)}
+\* ---- family "edge", part 2: layer descriptors that already carry remote/* annotations with a foreign value
+ForeignUrl == 9
+PreKeys == <<UrlsKey, UrlsIdxKey(0), UrlsIdxKey(1), RefKey, DigestKey, LayersKey, PrefetchKey>>
+PreSeqs == {<<[k |-> PreKeys[a], u |-> ForeignUrl]>> : a \in 1..Len(PreKeys)}
+           \cup {<<[k |-> PreKeys[a], u |-> ForeignUrl], [k |-> PreKeys[b], u |-> ForeignUrl]>>
+                 : a \in 1..Len(PreKeys), b \in 2..Len(PreKeys)}
+PresetManifests ==
+    UNION {{ <<EntryP(1, u1, TRUE, pre), Entry(2, u2, TRUE)>>,
+             <<Entry(1, u1, TRUE), EntryP(2, u2, TRUE, pre)>> }
+           : u1 \in {<<>>, <<11>>}, u2 \in {<<>>, <<12>>},
+             pre \in {q \in PreSeqs : Len(q) = 1 \/ \E a, b \in 1..Len(PreKeys) : a < b /\ q[1].k = PreKeys[a] /\ q[2].k = PreKeys[b]}}
+
 Manifests ==
     CASE Family = "full"    -> FullManifests(MaxLayers)
       [] Family = "pattern" -> PatternManifests(MaxLayers)
       [] Family = "long"    -> LongManifests(LongNs)
       [] Family = "tamper"  -> TamperManifests
+      [] Family = "edge"    -> BoundaryManifests \cup PresetManifests
 
 \* child indexes (1-based in Children(man); Go index = this - 1) of the layer children one may Pick
 Targets(man) ==
@@ -157,7 +198,10 @@ RECURSIVE AWVLoop(_, _, _)
 AWVLoop(klen, vals, acc) ==
     IF vals = <<>> THEN acc
     ELSE LET u == Head(vals) IN
-         IF ValidateUrls /\ klen + acc.len + ULen(u) + 1 > MaxSize THEN acc        \* break
+         LET seen == IF CountSeparator THEN acc.len + ULen(u) + 1                              \* len(v + u + ",")
+                     ELSE acc.len - (IF acc.len > 0 THEN 1 ELSE 0) + ULen(u)                  \* len(v' + u), v' without trailing ','
+         IN
+         IF ValidateUrls /\ klen + seen > MaxSize THEN acc                                     \* break
          ELSE AWVLoop(klen, Tail(vals), Val(Append(acc.items, u), acc.len + ULen(u) + 1))
 \* strings.TrimSuffix(v, ","): v is empty or ends with ","
 Trimmed(acc) == Val(acc.items, IF acc.len > 0 THEN acc.len - 1 ELSE 0)
@@ -180,7 +224,14 @@ DefLoop(rest, k, nl, acc, ann) ==
               ELSE LET key == UrlsIdxKey(IF UrlIdx = "layer" THEN nl ELSE k)
                    IN DefLoop(Tail(rest), k + 1, nl + 1,
                               Val(Append(acc.items, l.d), acc.len + DLen + 1),
-                              (key :> AWV(key, l.urls)) @@ ann)
+                              IF WriteEmptyUrlLabels \/ l.urls # <<>> THEN (key :> AWV(key, l.urls)) @@ ann ELSE ann)
+
+\* the annotations a descriptor carries in the manifest (keys are distinct). Under a URL key the foreign value is
+\* the URL u; under any other key the same bytes are not a well-formed reference / digest / number: token -u
+IsUrlKey(k) == k = UrlsKey \/ k \in {UrlsIdxKey(i) : i \in 0..99}
+PreItems(e) == IF IsUrlKey(e.k) THEN <<e.u>> ELSE <<0 - e.u>>
+PreAnn(c) == [key \in {c.pre[i].k : i \in 1..Len(c.pre)} |->
+                LET i == CHOOSE ii \in 1..Len(c.pre) : c.pre[ii].k = key IN Val(PreItems(c.pre[i]), ULen(c.pre[i].u))]
 
 DefaultAnn(man, t, ref, pf) ==
     LET ch == Children(man)
@@ -191,7 +242,8 @@ DefaultAnn(man, t, ref, pf) ==
        @@ loop.ann
        @@ (LayersKey :> Trimmed(loop.acc))
        @@ (PrefetchKey :> Val(<<pf>>, PfTab[pf].len))
-       @@ (UrlsKey :> AWV(UrlsKey, c.urls))
+       @@ (IF WriteEmptyUrlLabels \/ c.urls # <<>> THEN (UrlsKey :> AWV(UrlsKey, c.urls)) ELSE <<>>)
+       @@ PreAnn(c)          \* c.Annotations as it came with the manifest: every key written above overwrites it
 
 \* containerd snapshotters.getLayers(key, children[i:], labels.Validate): no trailing comma
 RECURSIVE CriLayersLoop(_, _)
@@ -224,6 +276,7 @@ ExtraAnn(man, t, ref, pf) ==
                      LET j == CHOOSE jj \in J : UrlsIdxKey(jj - 1) = key
                      IN AWV(key, ch[FirstWithDigest(ch, nl.items[j])].urls)]
     IN wrapper
+       @@ PreAnn(c)          \* "nop if this key is already set": what came with the manifest wins over the three below
        @@ (UrlsKey :> AWV(UrlsKey, c.urls))
        @@ (PrefetchKey :> Val(<<pf>>, PfTab[pf].len))
        @@ urlann
@@ -318,21 +371,31 @@ Matched(fl, rd) == (fl = "default" /\ rd \in {"default", "chain"}) \/ (fl = "ext
 Following(man, t) ==
     LET ch == Children(man) IN SelectSeq(SubSeq(ch, t + 1, Len(ch)), LAMBDA e : e.isLayer /\ e.d # ch[t].d)
 
+\* Keys that the EXTRA handler leaves as the manifest's descriptor pre-set them ("nop if this key is already set"):
+\* the value read back for such a key is the manifest's annotation, not derived from the descriptor. The default
+\* handler overwrites everything it writes, so for it the set is empty and the formulas below apply in full.
+KeptKeys(man, t, fl) ==
+    IF fl = "extra" THEN {Children(man)[t].pre[i].k : i \in 1..Len(Children(man)[t].pre)} ELSE {}
+UrlIdxKeys == {UrlsIdxKey(i) : i \in 0..99}
+
 \* RoundTrip: untampered labels, read by the reader that belongs to the flavour
-PRoundTrip(man, t, ref, res) ==
+PRoundTrip(man, t, ref, fl, res) ==
     LET ch == Children(man)
         c == ch[t]
         fol == Following(man, t)
+        kept == KeptKeys(man, t, fl)
     IN /\ res.ok
        /\ res.ref = ref
        /\ res.digest = c.d
-       /\ UrlsSame(res.urls, c.urls, Len(UrlsKey))
+       \* the descriptor's URLs - never those of an annotation that came with the manifest
+       /\ UrlsKey \notin kept => UrlsSame(res.urls, c.urls, Len(UrlsKey))
        /\ Len(res.neigh) <= Len(fol)
        /\ \A k \in 1..Len(res.neigh) :
             /\ k <= Len(fol) => res.neigh[k].d = fol[k].d
             \* its own URLs, never another layer's: the URLs of a manifest layer with this very digest
-            /\ \E i \in 1..Len(ch) : /\ ch[i].isLayer /\ ch[i].d = res.neigh[k].d
-                                     /\ UrlsSame(res.neigh[k].urls, ch[i].urls, MaxUrlsIdxKeyLen)
+            /\ kept \cap UrlIdxKeys = {} =>
+                 \E i \in 1..Len(ch) : /\ ch[i].isLayer /\ ch[i].d = res.neigh[k].d
+                                       /\ UrlsSame(res.neigh[k].urls, ch[i].urls, MaxUrlsIdxKeyLen)
 
 \* stronger, positional pairing: neighbour k carries the URLs of the k-th following layer ENTRY. Holds for the
 \* default handler; the extra handler looks URLs up by digest (layerFromDigest: first child with the digest), so
@@ -340,11 +403,20 @@ PRoundTrip(man, t, ref, res) ==
 UrlsByDigest(man) == \A a, b \in 1..Len(man) : man[a].d = man[b].d => man[a].urls = man[b].urls
 PNeighbourUrlsPositional(man, t, fl, res) ==
     LET fol == Following(man, t) IN
-    (res.ok /\ (fl = "default" \/ UrlsByDigest(man))) =>
+    (res.ok /\ (fl = "default" \/ UrlsByDigest(man)) /\ KeptKeys(man, t, fl) \cap UrlIdxKeys = {}) =>
         \A k \in 1..Len(res.neigh) : k <= Len(fol) => UrlsSame(res.neigh[k].urls, fol[k].urls, MaxUrlsIdxKeyLen)
 
 \* PrefetchSizeRoundTrips: the prefetch label is present and carries exactly the size given to the handler
-PPrefetch(wl, pf) == PrefetchKey \in DOMAIN wl /\ wl[PrefetchKey].items = <<pf>>
+PPrefetch(man, t, fl, wl, pf) ==
+    PrefetchKey \notin KeptKeys(man, t, fl) => (PrefetchKey \in DOMAIN wl /\ wl[PrefetchKey].items = <<pf>>)
+
+\* Named deviation, pinned (not a C20 formula): the extra handler keeps a pre-set annotation of the target child
+\* for every key that containerd's wrapper does not own
+PExtraKeepsPreset(man, t, fl, wl) ==
+    fl = "extra" =>
+        \A i \in 1..Len(Children(man)[t].pre) :
+            LET e == Children(man)[t].pre[i] IN
+            e.k \in DOMAIN wl /\ wl[e.k].items = PreItems(e)
 
 \* MalformedMandatoryRejected: a reader whose mandatory labels (reference, digest) are missing or malformed
 \* rejects; and whatever was tampered with, an accepted read names the original ref and digest, never another
@@ -365,7 +437,7 @@ CaseRec == [family |-> Family, man |-> cs.man, ref |-> cs.ref, pf |-> cs.pf, fl 
 
 Init ==
     /\ phase = "start" /\ cs = NoCase /\ tgt = 0 /\ wl = <<>> /\ lbl = <<>> /\ tam = <<>> /\ rd = "none" /\ res = Fail
-    /\ Emit => PrintT("VTAB " \o ToJson([ulen |-> ULenTab, ulenmid |-> ULenMid, ulenbig |-> ULenBig, bigfrom |-> BigFrom,
+    /\ Emit => PrintT("VTAB " \o ToJson([ulen |-> ULenTab, ulenmid |-> ULenMid, ulenbig |-> ULenBig, bigfrom |-> BigFrom, exactfrom |-> ExactFrom,
                                         manifestdigest |-> ManifestDigest, reflen |-> RefLenTab, pf |-> PfTab, dlen |-> DLen,
                                         tkeys |-> TKeys, nvariants |-> NVariants, maxsize |-> MaxSize]))
 
@@ -411,10 +483,11 @@ Spec == Init /\ [][Next]_vars
 
 \* ---------------------------------------------------------------- invariants
 AllLabelsValid == phase \in {"picked", "read"} => PAllLabelsValid(wl)
-RoundTrip == (phase = "read" /\ tam = <<>> /\ Matched(cs.fl, rd)) => PRoundTrip(cs.man, tgt, cs.ref, res)
+RoundTrip == (phase = "read" /\ tam = <<>> /\ Matched(cs.fl, rd)) => PRoundTrip(cs.man, tgt, cs.ref, cs.fl, res)
 NeighbourUrlsPositional ==
     (phase = "read" /\ tam = <<>> /\ Matched(cs.fl, rd)) => PNeighbourUrlsPositional(cs.man, tgt, cs.fl, res)
-PrefetchSizeRoundTrips == phase \in {"picked", "read"} => PPrefetch(wl, cs.pf)
+PrefetchSizeRoundTrips == phase \in {"picked", "read"} => PPrefetch(cs.man, tgt, cs.fl, wl, cs.pf)
+ExtraKeepsPreset == phase \in {"picked", "read"} => PExtraKeepsPreset(cs.man, tgt, cs.fl, wl)
 MalformedMandatoryRejected == phase = "read" => PMalformedRejected(cs.man, tgt, cs.ref, Items(lbl), rd, res)
 \* internal consistency (not a property formula): the tamper log explains lbl
 TamperLogExplains == phase \in {"picked", "read"} => lbl = ApplyTampers(wl, tam)
